@@ -417,3 +417,15 @@ func (l *Loaded) AddressTaken(fn *ssa.Function) bool {
 	}
 	return l.addrTaken[fn]
 }
+
+// RealCallers: the static call sites of fn that are not inside synthetic
+// wrappers (pointer-receiver wrappers of value methods, bound-method thunks).
+func (l *Loaded) RealCallers(fn *ssa.Function) []ssa.CallInstruction {
+	var out []ssa.CallInstruction
+	for _, ci := range l.StaticCallers(fn) {
+		if ci.Parent() != nil && ci.Parent().Synthetic == "" {
+			out = append(out, ci)
+		}
+	}
+	return out
+}
